@@ -109,7 +109,10 @@ class IndexOps:
         if fault:
             ints = [x for x in m.raw if isinstance(x, (int, np.integer)) and not isinstance(x, (bool, np.bool_))]
             kind = ch.weighted([('dup', 4 if m.raw else 0), ('unhashable', 2), ('bad', 1 if fam == 'date' else 0),
-                                ('eqfloat', 2 if ints else 0), ('nptype', 0.7 if fam != 'date' else 0)])
+                                ('eqfloat', 2 if ints else 0), ('nptype', 0.7 if fam != 'date' else 0), ('odd', 0.7 if fam != 'date' else 0)])
+            if kind == 'odd':
+                # hashable, but sized or carrying a dtype attribute that is not a dtype: accepted or refused, never half stored
+                return ch.choice([{'range': [0, 2, 1]}, {'range': [0, 3, 1]}, {'fset': [1, 2]}, {'nptype': 'ndarray'}, {'sfcls': 'Series'}])
             if kind == 'eqfloat':
                 return float(ch.choice(ints))  # equal to a held label by Python equality (1.0 == 1)
             if kind == 'nptype':
@@ -292,6 +295,8 @@ class IndexOps:
             return 'may', 'unhashable' + auto
         if isinstance(label, type):
             return 'may', 'numpy-type-label' + auto
+        if isinstance(label, (range, frozenset)):
+            return 'may', 'sized-hashable-label' + auto
         u = m.unit
         if u is not None:
             try:
@@ -393,6 +398,29 @@ class IndexOps:
         e.extra.pop('pending_fail', None)
         return 'raise:' + ('sim' if isinstance(exc, SimulatedFailure) else type(exc).__name__)
 
+    def _readable_after_accept(self, e, site, cls, labels=()):
+        '''A growth call that returned normally must leave a container that can be read (labels and data in step).'''
+        obj = e.obj
+
+        def read():
+            if e.kind == 'fr':
+                return (obj.shape, obj.values.shape, len(obj.columns), list(obj.columns), obj.columns.values.shape)
+            return (len(obj), list(obj), obj.values.shape)
+        st, r = call(read)
+        bad = st == 'raise' or (e.kind != 'fr' and not (r[0] == len(r[1]) == r[2][0])) or (e.kind == 'fr' and not (r[0][1] == r[1][1] == r[2] == len(r[3]) == r[4][0]))
+        oracle = 'C09.lockstep' if self.profile == 'C09' else self.profile + '.bijection' if self.profile == 'C02' else 'C05.views'
+        if bad:
+            if self.want(oracle):
+                raise Violation(oracle, site, cls, f'the growth call was accepted but the container cannot be read consistently afterwards: {r!r:.300}')
+            return
+        ix = obj.columns if e.kind == 'fr' else obj
+        for lab in labels:
+            if unhashable(lab) or (isinstance(lab, float) and lab != lab):
+                continue
+            stc, c = call(lambda: lab in ix)
+            if self.want(oracle) and (stc == 'raise' or c is not True):
+                raise Violation(oracle, site, cls, f'the growth call accepted the label {lab!r} but it is not a member afterwards (held: {list(ix)!r:.200})')
+
     def _growth_ok(self, e, site, cls):
         self.stats['grow:' + site] += 1
         if e.extra.get('warm'):
@@ -423,7 +451,8 @@ class IndexOps:
             del self.ents[e.h]
             return 'accepted-dup'
         if exp == 'may':
-            # accepted something we cannot model (e.g. NaT); stop following this object
+            # accepted something we cannot model (e.g. NaT); stop following this object - but what was accepted must be held
+            self._readable_after_accept(e, site, cls, labels=[label])
             del self.ents[e.h]
             return 'accepted-unmodelled'
         was_auto = e.extra.get('auto')
@@ -495,6 +524,7 @@ class IndexOps:
             del self.ents[e.h]
             return 'accepted-bad'
         if exp == 'may':
+            self._readable_after_accept(e, site, cls)
             del self.ents[e.h]
             return 'accepted-unmodelled'
         if e.extra.get('auto'):
